@@ -20,6 +20,15 @@ theorem resList_plain (e : String → List String → Option (List Tok)) (ip : L
     simp only [hasVarList, Bool.or_eq_false_iff] at h
     simp [resList, resTok_plain e ip t h.1, ih h.2]
 
+/-- the splice loop treats every element with the SAME in-progress set (the guard is path based) -/
+theorem resList_append (e : String → List String → Option (List Tok)) (ip : List String) (a b : List Tok) :
+    resList e ip (a ++ b) = resList e ip a ++ resList e ip b := by
+  induction a with
+  | nil => simp [resList]
+  | cons t rest ih =>
+    simp only [List.cons_append, resList]
+    cases resTok e ip t <;> simp [ih]
+
 theorem resFallback_plain (e : String → List String → Option (List Tok)) (ip : List String) (ts : List Tok)
     (h : hasVarList ts = false) : resFallback e ip ts true = removeWhitespace ts := by
   induction ts with
